@@ -2,7 +2,8 @@
   Driver command for the LocalFS / POSIX model (C18): `lfs.untar root=<hex path> nso= nsp= fs=<entries> bytes=<hex>`
   runs `LFS.untarFS` and prints the verdict and the resulting file system.
   An entry is `<hex of the slash-joined real path>|<d|f|l|v>|<hex data or target>|<mtime or ->|<uid:gid or ->|<mode or ->|<khex=vhex,…>`,
-  entries joined by `;`.
+  entries joined by `;`.  The mtime field is the explicitly set modification time (`-` = the kernel's "now") for
+  every kind, symbolic links included (`l`: set by `lchtimes`, the no-follow call).
 -/
 import Driver.ParAccept
 import Desync.Model.LocalFS
@@ -32,7 +33,7 @@ def parseEntry (s : String) : Option (RPath × Obj) :=
       match k with
       | "d" => some (rp, .dir a (parseMtime t))
       | "f" => some (rp, .file xb a (parseMtime t))
-      | "l" => some (rp, .symlink xb a)
+      | "l" => some (rp, .symlink xb a (parseMtime t))
       | "v" => some (rp, .dev 0 0 a (parseMtime t))
       | _ => none
     | _, _ => none
@@ -55,7 +56,7 @@ def entryStr (e : RPath × Obj) : String :=
   match e.2 with
   | .dir a m => s!"{p}|d||{mtStr m}|{attrStr a}"
   | .file d a m => s!"{p}|f|{toHex d}|{mtStr m}|{attrStr a}"
-  | .symlink t a => s!"{p}|l|{toHex t}|-|{attrStr a}"
+  | .symlink t a m => s!"{p}|l|{toHex t}|{mtStr m}|{attrStr a}"
   | .dev _ _ a m => s!"{p}|v||{mtStr m}|{attrStr a}"
 
 def cmdLfsUntar (a : Args) : String :=
